@@ -125,12 +125,18 @@ func runKS(c KSCase, rec *h.Rec) error {
 		ringQ.NTT(ct.Value[1], c1ntt)
 	}
 
-	var residuals []*big.Int
-	collect := func(r []*big.Int, bound float64, key string) error {
+	var pools smudgePools
+	cls := func(i int) int {
+		if i == 0 || !c.Shallow {
+			return 0
+		}
+		return 1
+	}
+	collect := func(k int, r []*big.Int, bound float64, key string) error {
 		if infNorm(r).Cmp(bigF(bound)) > 0 {
 			return h.Failf(key, "share noise %s exceeds the hard bound %g of the requested distributions (sigma=%g, n=%d, N=%d)", infNorm(r), bound, c.Sigma, n, N)
 		}
-		residuals = append(residuals, r...)
+		pools.add(k, r)
 		return nil
 	}
 
@@ -197,7 +203,7 @@ func runKS(c KSCase, rec *h.Rec) error {
 			if shares[i].Level() != level {
 				return h.Failf("C16:KeySwitch:GenShare:share-level", "share level %d after GenShare on a level-%d ciphertext (allocated at %d)", shares[i].Level(), level, shareLevel)
 			}
-			if err := collect(residual(i, shares[i]), boundParty, "C16:KeySwitch:GenShare:noise-above-bound"); err != nil {
+			if err := collect(cls(i), residual(i, shares[i]), boundParty, "C16:KeySwitch:GenShare:noise-above-bound"); err != nil {
 				return err
 			}
 			if u := maxCoeffOverQ(ringQ, shares[i].Value); u > unreduced {
@@ -231,11 +237,25 @@ func runKS(c KSCase, rec *h.Rec) error {
 		}
 		p0.KeySwitch(ct, agg, out)
 
-		// smudging statistics: more shares from party 0 until enough samples are pooled
-		for len(residuals) < minSmudgeSamples {
+		// smudging statistics: more shares from party 0's key until enough samples are pooled, separately for the instance
+		// built by the constructor and for instances obtained through ShallowCopy (alternating copy and copy-of-copy)
+		for pools.short(0) {
 			sh := p0.AllocateShare(level)
 			p0.GenShare(in.shares[0], outKeys.shares[0], ctOrig, &sh)
-			if err := collect(residual(0, sh), boundParty, "C16:KeySwitch:GenShare:noise-above-bound"); err != nil {
+			if err := collect(0, residual(0, sh), boundParty, "C16:KeySwitch:GenShare:noise-above-bound"); err != nil {
+				return err
+			}
+		}
+		pc := p0.ShallowCopy()
+		pcc := pc.ShallowCopy()
+		for k := 0; pools.short(1); k++ {
+			px := pc
+			if k%2 == 1 {
+				px = pcc
+			}
+			sh := px.AllocateShare(level)
+			px.GenShare(in.shares[0], outKeys.shares[0], ctOrig, &sh)
+			if err := collect(1, residual(0, sh), boundParty, "C16:KeySwitch:GenShare:noise-above-bound"); err != nil {
 				return err
 			}
 		}
@@ -280,7 +300,7 @@ func runKS(c KSCase, rec *h.Rec) error {
 			pi := proto(i)
 			shares[i] = pi.AllocateShare(shareLevel)
 			pi.GenShare(in.shares[i], pkOut, ct, &shares[i])
-			if err := collect(residual(i, shares[i]), boundParty, "C16:PublicKeySwitch:GenShare:noise-above-bound"); err != nil {
+			if err := collect(cls(i), residual(i, shares[i]), boundParty, "C16:PublicKeySwitch:GenShare:noise-above-bound"); err != nil {
 				return err
 			}
 		}
@@ -307,10 +327,23 @@ func runKS(c KSCase, rec *h.Rec) error {
 		}
 		p0.KeySwitch(ct, agg, out)
 
-		for len(residuals) < minSmudgeSamples {
+		for pools.short(0) {
 			sh := p0.AllocateShare(level)
 			p0.GenShare(in.shares[0], pkOut, ctOrig, &sh)
-			if err := collect(residual(0, sh), boundParty, "C16:PublicKeySwitch:GenShare:noise-above-bound"); err != nil {
+			if err := collect(0, residual(0, sh), boundParty, "C16:PublicKeySwitch:GenShare:noise-above-bound"); err != nil {
+				return err
+			}
+		}
+		pc := p0.ShallowCopy()
+		pcc := pc.ShallowCopy()
+		for k := 0; pools.short(1); k++ {
+			px := pc
+			if k%2 == 1 {
+				px = pcc
+			}
+			sh := px.AllocateShare(level)
+			px.GenShare(in.shares[0], pkOut, ctOrig, &sh)
+			if err := collect(1, residual(0, sh), boundParty, "C16:PublicKeySwitch:GenShare:noise-above-bound"); err != nil {
 				return err
 			}
 		}
@@ -354,11 +387,11 @@ func runKS(c KSCase, rec *h.Rec) error {
 	}
 
 	// ---- smudging noise lower bound ---------------------------------------------------------------------------------
-	_, std := stdOf(residuals)
-	rec.Note("std/sigma", std/c.Sigma)
 	// residuals are centred mod Q: only meaningful when the hard bound is far below Q/2
-	if discriminating && std < 0.8*c.Sigma {
-		return h.Failf("C16:"+proto+":GenShare:smudging-too-small", "pooled std of the per-share noise %.3f < 0.8 * requested sigma %g over %d samples", std, c.Sigma, len(residuals))
+	if discriminating {
+		if err := pools.check(c.Sigma, 1, "C16:"+proto+":GenShare:smudging-too-small", rec); err != nil {
+			return err
+		}
 	}
 
 	if discriminating {
